@@ -34,6 +34,15 @@ fn edge<F: PrimeField>(rng: &mut ChaChaRng, k: usize) -> F {
         8 => -two64,
         9 => -F::from(2u64),
         10 => F::from(rng.gen::<u64>()),
+        _ if (k / 12) % 2 == 1 => {
+            // limb structure: each 64-bit limb zero, small, all-ones or random
+            let mut v = F::zero();
+            for _ in 0..4 {
+                let limb: u64 = match rng.gen_range(0..4) { 0 => 0, 1 => rng.gen_range(1..8), 2 => u64::MAX, _ => rng.gen() };
+                v = v * two64 + F::from(limb);
+            }
+            v
+        }
         _ => F::rand(rng),
     }
 }
